@@ -54,6 +54,7 @@ type FuncContract struct {
 	Splits     []*SplitHint
 	Tier       string // "" | "thorough"
 	AllocBound *CE
+	SlowObls   []string // substrings of obligation names that are thorough-only
 	Imports    []string // "callee[tag]": quantified ensures of callees to assume at call sites
 	Abstract   []string // callee names to abstract (havoc) explicitly instead of inlining
 	File       string
@@ -103,7 +104,7 @@ var ckeywords = map[string]bool{
 	"spec": true, "func": true, "iface": true, "lemma": true, "axiom": true, "prop": true, "mode": true, "requires": true,
 	"ensures": true, "modifies": true, "nopanic": true, "nooverflow": true, "pure": true,
 	"trusted": true, "inline": true, "loop": true, "use": true, "split": true, "tier": true,
-	"induct": true, "ih": true, "allocbound": true, "abstract": true, "ghost": true, "uninterp": true, "where": true, "import": true, "globalinv": true,
+	"induct": true, "ih": true, "allocbound": true, "abstract": true, "ghost": true, "uninterp": true, "where": true, "import": true, "globalinv": true, "slow": true,
 }
 
 func parseParams(s string) ([]Param, error) {
@@ -437,6 +438,9 @@ func loadContracts(path string) (*PkgContracts, error) {
 					for _, f := range strings.Fields(strings.ReplaceAll(rest, ",", " ")) {
 						curF.Imports = append(curF.Imports, f)
 					}
+				case "slow":
+					// slow <substring>...: obligations whose name contains one of these are thorough-only
+					curF.SlowObls = append(curF.SlowObls, strings.Fields(strings.ReplaceAll(rest, ",", " "))...)
 				case "abstract":
 					curF.Abstract = append(curF.Abstract, strings.Fields(strings.ReplaceAll(rest, ",", " "))...)
 				case "allocbound":
